@@ -263,6 +263,20 @@ func runC18(r *Run, stratum string) *Violation {
 		// commands the filters remove is a single-slot unit and must not be refused; one that loses all its commands
 		// is no unit at all and must leave the parser ready for whatever follows
 		cfg.Filters = &FilterSpec{PrefixBlack: []string{"drop:"}}
+		if g.Choose("filterbyslot", 2) == 0 {
+			// the same by slot: keys tagged {drop0}..{drop2} live in blacklisted slots
+			cfg.Filters = &FilterSpec{}
+			for i := 0; i < 3; i++ {
+				sl := simredis.HashSlot([]byte(fmt.Sprintf("{drop%d}", i)))
+				cfg.Filters.SlotBlack = append(cfg.Filters.SlotBlack, [2]int{sl, sl})
+			}
+		}
+	}
+	droppedKey := func(tag string) []byte {
+		if cfg.Filters != nil && len(cfg.Filters.SlotBlack) > 0 {
+			return []byte(fmt.Sprintf("{drop%d}%d", g.Choose("droptag", 3), g.Choose("dropkey", 50)))
+		}
+		return []byte(fmt.Sprintf("drop:{%s-d%d}%d", tag, g.Choose("droptag", 3), g.Choose("dropkey", 50)))
 	}
 	var units []unitSpec
 	nUnits := 2 + g.Choose("nunits", max)
@@ -365,7 +379,7 @@ func runC18(r *Run, stratum string) *Violation {
 		if kind == "filtered" && !isBad {
 			// commands on keys the prefix blacklist rejects, in slots of their own
 			dropped := func() [][]byte {
-				k := []byte(fmt.Sprintf("drop:{%s-d%d}%d", tagSet[0], g.Choose("droptag", 3), g.Choose("dropkey", 50)))
+				k := droppedKey(tagSet[0])
 				switch g.Choose("dropcmd", 3) {
 				case 0:
 					return [][]byte{[]byte("set"), k, []byte("x")}
@@ -374,7 +388,35 @@ func runC18(r *Run, stratum string) *Violation {
 				}
 				return [][]byte{[]byte("rpush"), k, []byte("a"), []byte("b")}
 			}
-			switch g.Choose("filterkind", 4) {
+			switch g.Choose("filterkind", 5) {
+			case 4: // a multi-key command the filters reduce to its accepted keys (DEL / UNLINK / MSET), alone or in a transaction
+				keep := gen.opts.KeyGen()
+				drop := droppedKey(tagSet[0])
+				var full, proj [][]byte
+				switch g.Choose("partialcmd", 3) {
+				case 0:
+					full, proj = [][]byte{[]byte("del"), keep, drop}, [][]byte{[]byte("del"), keep}
+				case 1:
+					full, proj = [][]byte{[]byte("UNLINK"), drop, keep}, [][]byte{[]byte("UNLINK"), keep}
+				default:
+					full, proj = [][]byte{[]byte("mset"), drop, []byte("x"), keep, []byte("y")}, [][]byte{[]byte("mset"), keep, []byte("y")}
+				}
+				us.txn = g.Choose("partialtxn", 2) == 0
+				us.src = [][][]byte{full}
+				us.cmds = [][][]byte{proj}
+				if us.txn {
+					other := [][]byte{[]byte("set"), gen.opts.KeyGen(), []byte("v")}
+					us.src = append(us.src, other)
+					us.cmds = append(us.cmds, other)
+				}
+				us.slots = map[int]bool{}
+				for _, c := range us.cmds {
+					if sl, ok := simredis.SlotsOf(strings.ToLower(string(c[0])), c[1:]); ok {
+						for _, x := range sl {
+							us.slots[x] = true
+						}
+					}
+				}
 			case 0: // everything of the unit is filtered out
 				us.src = nil
 				for i := 0; i < n; i++ {
